@@ -84,6 +84,10 @@ def _common(K, rec, res, limit):
         # (unbounded, up to RecursionError): "retries are bounded" does not hold for it
         n = sum(1 for e in view.recoveries if e["exc"] not in ("WorkflowExecutionException", "FailureHandlingException"))
         raise Violation(f"C17:{view.raised_kind()}", f"{n} recover() calls for internal errors; plan {res.plan} limit {limit}; versions {res.versions}")
+    if res.raised is not None and res.run.capped:
+        # cut off by the harness' recover() call cap: a retry storm that max_retries did not stop
+        kind = "raised:loop-recovery" if res.shape.kind == "loop" else "raised:runaway-recovery"
+        raise Violation(f"C17:{kind}", f"more than {res.run.recover_cap} recover() calls; plan {res.plan} limit {limit}; versions {res.versions}")
     return view
 
 
@@ -136,7 +140,7 @@ async def check_soft(case, rec):
         if res.raised is not None:
             raise Violation("C17:raise-within-limit", f"{res.raised_msg!r}; every job fails fewer than {limit} times: {plan}; versions {res.versions}")
         if res.output != shape.reference_output():
-            raise Violation("C17:" + K.output_kind(res.output, res.shape.reference_output()), f"{res.output!r} != {shape.reference_output()!r}; plan {plan}")
+            raise Violation("C17:" + view.output_kind(res.output, res.shape.reference_output()), f"{res.output!r} != {shape.reference_output()!r}; plan {plan}")
         for job in shape.jobs():
             exp = 1 + view.planned_exec.get(job, 0)
             if view.starts.get(job, 0) != exp:
@@ -146,21 +150,52 @@ async def check_soft(case, rec):
     rec.nontrivial(_near_limit(view, limit))
 
 
+def _uncounted_overlap(view, res):
+    """jobs with two recoveries open at the same time that were entered from *different* failed steps
+    (e.g. the two transfer steps of a job with two inputs, the second failing collaterally after the
+    first one's fail-stop) and with more recoveries that ran a recovery workflow than retry-counter
+    increments"""
+    out = []
+    spans = {}
+    for e in view.recoveries:
+        x = view.exits.get(e["rid"])
+        spans.setdefault(e["job"], []).append((e["seq"], x["seq"] if x else 1 << 60, e["step"], x["outcome"] if x else "open"))
+    for job, sp in spans.items():
+        overlap = any(a[0] < b[0] < a[1] and a[2] != b[2] for a in sp for b in sp)
+        # recoveries of the job that went on to build and run a recovery workflow (not refused)
+        rids = {e["rid"] for e in view.recoveries if e["job"] == job}
+        accepted = sum(1 for rid in res.run.wf_rid.values() if rid in rids)
+        if overlap and accepted > res.versions.get(job, 1) - 1:
+            out.append(job)
+    return sorted(out)
+
+
 @prop.given("fail-stop-bound", _case(("soft", "stop", "stop"), ["default"]), quick=400, thorough=15000)
 @_survey
 async def check_stop(case, rec):
     K, shape, limit, plan, res = await _run(case)
     view = _common(K, rec, res, limit)
-    _bound(view, limit, res)
+    uncounted = _uncounted_overlap(view, res)
+    try:
+        _bound(view, limit, res)
+    except Violation as v:
+        if uncounted and v.kind == "C17:attempted-more-than-max-retries":
+            raise Violation("C17:failure-not-counted-for-overlapping-recoveries-of-one-job", f"{uncounted}: {v.message}") from None
+        raise
     exhausted = sorted(j for j, n in view.planned_total.items() if n >= limit)
     rec.label("exhausted-by-plan" if exhausted else "within-limit-by-plan", "raised" if res.raised else "completed")
+    if exhausted and res.raised is None and set(exhausted) <= set(uncounted):
+        raise Violation(
+            "C17:failure-not-counted-for-overlapping-recoveries-of-one-job",
+            f"{uncounted} failed {limit} times or more by plan {plan} but the workflow completed: recover() calls {view.own_any}, retry counters {res.versions}",
+        )
     if exhausted and res.raised is None:
         raise Violation("C17:no-raise-after-exhausted-retries", f"jobs {exhausted} fail >= {limit} times by plan {plan}, the workflow completed; versions {res.versions}")
     if res.raised is not None and not _refused(view):
         raise Violation("C17:raise-without-refused-recovery", f"raised {res.raised_msg!r} but no recovery ended with FailureHandlingException; plan {plan}; versions {res.versions}")
     if res.raised is None:
         if res.output != shape.reference_output():
-            raise Violation("C17:" + K.output_kind(res.output, res.shape.reference_output()), f"{res.output!r} != {shape.reference_output()!r}; plan {plan}")
+            raise Violation("C17:" + view.output_kind(res.output, res.shape.reference_output()), f"{res.output!r} != {shape.reference_output()!r}; plan {plan}")
         if res.unjustified_lost:
             raise Violation("C17:output-file-missing", str(res.unjustified_lost))
     rec.nontrivial(_near_limit(view, limit))
